@@ -524,15 +524,15 @@ def enclosure_cases(ctx, g):
                 add("cart2geodetic", comp3(t, 1), gla, 1e-11 * cond, [x, y, z, a, e])
                 add("cart2geodetic", comp3(t, 2), glo, 1e-11, [x, y, z, a, e])
             else:
-                n = count_passes(ell, x, y, z, gla)
-                t = f"cart2geodetic_n {n}%nat {R(x)} {R(y)} {R(z)} {E}"
-                add("cart2geodetic", comp3(t, 0), gh, 1e-6 * sc * cond, [x, y, z, a, e, n])
-                add("cart2geodetic", comp3(t, 1), gla, 2e-12, [x, y, z, a, e, n])
-                add("cart2geodetic", comp3(t, 2), glo, 1e-11, [x, y, z, a, e, n])
-                Bn = f"(geod_iter {R(a)} ({R(e)} ^ 2) (hypot {R(x)} {R(y)}) {R(z)} {n - 1}%nat (atan2 {R(z)} (hypot {R(x)} {R(y)})))"
-                stop_cases.append({"expr": f"(geod_T {R(a)} ({R(e)} ^ 2) (hypot {R(x)} {R(y)}) {R(z)} {Bn} - {Bn})", "value": 0.0,
-                                   "tol": TOL_STOP * (1 + 1e-6), "prep": UNF,
-                                   "meta": {"fn": "cart2geodetic:stop-criterion", "args": [x, y, z, a, e, n], "value": 0.0}})
+                # the loop returns (geod_h B, B) for an iterate B at which the stop criterion holds (theorem
+                # geodetic_loop_stops_at_an_iterate): both facts are enclosed at the latitude actually returned
+                Bf = float(np.deg2rad(gla))
+                P = f"(hypot {R(x)} {R(y)})"
+                add("cart2geodetic:h", f"geod_h {R(a)} ({R(e)} ^ 2) {P} {R(Bf)}", gh, 1e-6 * sc * cond, [x, y, z, a, e, Bf])
+                add("cart2geodetic:lon", f"atan2 {R(y)} {R(x)} * 180 / PI", glo, 1e-11, [x, y, z, a, e])
+                stop_cases.append({"expr": f"(geod_T {R(a)} ({R(e)} ^ 2) {P} {R(z)} {R(Bf)} - {R(Bf)})", "value": 0.0,
+                                   "tol": TOL_STOP * (1 + 1e-3), "prep": UNF,
+                                   "meta": {"fn": "cart2geodetic:stop-criterion", "args": [x, y, z, a, e, Bf], "value": 0.0}})
     # spherical <-> cartesian, distances, line of sight
     m = ctx.n(10, 80)
     r = rng.uniform(3.3e6, 7.5e7, m)
